@@ -236,7 +236,9 @@ Definition spec_ok (c : ocase) : bool :=
   end.
 
 Definition compares (c : ocase) : bool :=
-  match oc_mode c with 2 | 3 | 4 | 6 => false | _ => true end.
+  (* 7: C09's clause alone, for runs whose trace is not determined by the labels (doWithRetry's first
+     select with a context that is already cancelled: it may or may not run the attempt once) *)
+  match oc_mode c with 2 | 3 | 4 | 6 | 7 => false | _ => true end.
 
 (** * Wire *)
 Open Scope Z_scope.
